@@ -70,6 +70,58 @@ Proof.
     left. split; [|reflexivity]. apply W. exact C.
 Qed.
 
+Notation run_dir := (run_dir hdr compile fmt).
+
+(* ---- directory mode ---------------------------------------------------------------------- *)
+(* a successful directory run: every entry's own run succeeded (so each destination is fresh, by
+   fresh_after_run); a failing one: some entry failed, the entries before it were compiled, the failing
+   one and the ones after it are exactly as they were *)
+Theorem dir_ok_all c : forall entries entries',
+  run_dir true c entries = (ROk, entries') ->
+  Forall2 (fun s s' => run c s = (ROk, s')) entries entries'.
+Proof.
+  induction entries as [|s rest IH]; intros entries' H; cbn [run_dir] in H.
+  - injection H as <-. constructor.
+  - destruct (run c s) as [[|] s1] eqn:E; [|discriminate].
+    destruct (run_dir true c rest) as [r rest'] eqn:E2. injection H as -> <-.
+    constructor; [exact E|]. apply IH. reflexivity.
+Qed.
+
+Theorem dir_err_some c : forall entries entries',
+  run_dir true c entries = (RErr, entries') ->
+  exists pre pre' s post, entries = pre ++ s :: post /\ entries' = pre' ++ s :: post /\
+    Forall2 (fun a a' => run c a = (ROk, a')) pre pre' /\ fst (run c s) = RErr.
+Proof.
+  induction entries as [|s rest IH]; intros entries' H; cbn [run_dir] in H; [discriminate|].
+  destruct (run c s) as [[|] s1] eqn:E.
+  - destruct (run_dir true c rest) as [r rest'] eqn:E2. injection H as -> <-.
+    destruct (IH _ eq_refl) as (pre & pre' & x & post & H1 & H2 & H3 & H4).
+    exists (s :: pre), (s1 :: pre'), x, post. subst. repeat split; try reflexivity; [constructor; assumption|exact H4].
+  - injection H as <-. pose proof (failed_run_untouched c s s1 E) as ->.
+    exists [], [], s, rest. repeat split; try constructor. rewrite E. reflexivity.
+Qed.
+
+(* every invalid or unreadable grammar in the directory makes the run fail *)
+Theorem dir_fails_on_any_failure c entries s :
+  In s entries -> fst (run c s) = RErr -> fst (run_dir true c entries) = RErr.
+Proof.
+  induction entries as [|x rest IH]; intros Hin Hf; [contradiction|]. cbn [run_dir].
+  destruct (run c x) as [[|] x1] eqn:E.
+  - destruct Hin as [->|Hin]; [rewrite E in Hf; discriminate|].
+    specialize (IH Hin Hf). destruct (run_dir true c rest) as [r rest']. exact IH.
+  - reflexivity.
+Qed.
+
+(* the walk that goes on after an error and returns the last result reports success although an entry
+   failed, as soon as a later entry succeeds *)
+Theorem dir_walk_on_refuted c bad good good' :
+  fst (run c bad) = RErr -> run c good = (ROk, good') ->
+  fst (run_dir false c [bad; good]) = ROk /\ fst (run_dir true c [bad; good]) = RErr.
+Proof.
+  intros Hb Hg. cbn [run_dir]. destruct (run c bad) as [[|] b1] eqn:E; [discriminate|].
+  rewrite Hg. split; reflexivity.
+Qed.
+
 (* ---- what the header has to provide ------------------------------------------------ *)
 (* fixed width: version, build time and the two checksums are printed with fixed widths *)
 Hypothesis Hlen : forall g p g' p', length (hdr g p) = length (hdr g' p').
